@@ -90,11 +90,11 @@ func c06r7(c *RC) {
 				be, ok := e.(*ast.BinaryExpr)
 				t := strings.ReplaceAll(expr(e), " ", "")
 				switch {
-				case ok && be.Op == token.NEQ && expr(be.X) == errRes && expr(be.Y) == "nil" && errRes != "":
+				case func() bool { tx, nn, okT := nilTest(e); return okT && nn && tx == errRes && errRes != "" }():
 					onErr = true
-				case ok && strings.HasSuffix(expr(be.X), ".CombineKey") && expr(be.Y) == `""` && be.Op == token.EQL:
+				case ok && be.Op == token.EQL && (strings.HasSuffix(expr(be.X), ".CombineKey") && expr(be.Y) == `""` || strings.HasSuffix(expr(be.Y), ".CombineKey") && expr(be.X) == `""`):
 					onlyPerTask = true
-				case ok && strings.HasSuffix(expr(be.X), ".CombineKey") && expr(be.Y) == `""` && be.Op == token.NEQ:
+				case ok && be.Op == token.NEQ && (strings.HasSuffix(expr(be.X), ".CombineKey") && expr(be.Y) == `""` || strings.HasSuffix(expr(be.Y), ".CombineKey") && expr(be.X) == `""`):
 					onlyShared = true
 				default:
 					_ = t
